@@ -36,7 +36,7 @@ def candidates_c04():
 
 def env_model(name, grid, cands, mandatory, maxopt, lats, folds, modes, delays=(0,), eplens=(0,), spaces=("box",),
               bads=((0, "ok"),), maxcalls=4, reset_anywhere=True, clock="after_newdate", order="by_time",
-              null="in_space", invariants=(), properties=(), trade=False):
+              null="in_space", invariants=(), properties=(), trade=False, tick=1, daylen=DAY):
     defs = {
         "Grid": list(grid),
         "Cand": list(cands),
@@ -50,13 +50,13 @@ def env_model(name, grid, cands, mandatory, maxopt, lats, folds, modes, delays=(
         "Spaces": set(spaces),
         "Bads": tlagen.Raw("{" + ", ".join('[at |-> %d, cls |-> "%s"]' % b for b in bads) + "}"),
     }
-    plain = {"MaxOpt": maxopt, "MaxCalls": maxcalls, "ResetAnywhere": reset_anywhere, "ClockRule": clock,
+    plain = {"DayLen": daylen, "MaxOpt": maxopt, "MaxCalls": maxcalls, "ResetAnywhere": reset_anywhere, "ClockRule": clock,
              "HistoryOrder": order, "NullRule": null}
     return {
         "name": name,
         "module": tlagen.mc_module("MC", "Env", defs),
         "cfg": tlagen.cfg(defs, plain, invariants=invariants, properties=properties),
-        "ctx": {"trade": trade, "maxcalls": maxcalls},
+        "ctx": {"trade": trade, "maxcalls": maxcalls, "tick": tick},
         "invariants": list(invariants), "properties": list(properties),
     }
 
@@ -74,6 +74,8 @@ def replay_chunk(ctx, texts):
             continue                       # only maximal histories: every shorter one is a prefix of one
         cfg = s["cfg"]
         hist = list(s["hist"])
+        cfg = dict(cfg)
+        cfg["tick"] = ctx.get("tick", 1)
         fails, n = replay_env.run_case(cfg, hist, ctx["trade"], seed=len(cfg["events"]), owned=ctx.get("owned"))
         out["n"] += 1
         out["ops"] += n
